@@ -19,7 +19,7 @@ def profile(tier):
         max_faults=0,
         kinds={"echo": 8, "raise": 5, "unp_arg": 4, "struct_arg": 2, "hugearg": 2, "unp_res": 3, "big": 1, "bigarg": 1, "gate": 1},
         ops={"submit": 12, "result": 2, "cancel": 1, "map": 1, "callback": 3, "sleep": 1, "wait_all": 1, "get": 0},
-        timeouts=[None, None, 10],
+        timeouts=[None, None, 10, 0.5],
         endings=["wait_all", "none", "wait_all", "wait_shutdown"],
         probe=7, initializers=["none", "ok"],
     )
